@@ -386,6 +386,7 @@ func parseFrags(p string) []string {
 func urlSchema(r *rng) schemaSpec {
 	a := typeSpec{name: "t", fields: []fieldSpec{
 		{name: "a", code: 1}, {name: "ab", code: 2}, {name: "b", code: 13, nullable: true}, {name: "n", code: 11},
+		{name: "A", code: 1}, {name: "B", code: 12},
 		{rel: true, name: "r", toOne: true, target: "u", inv: "back"},
 		{rel: true, name: "rs", toOne: false, target: "u"},
 		{rel: true, name: "self", toOne: false, target: "t", inv: "self"},
@@ -428,7 +429,7 @@ func randRawURL(r *rng, hostile bool) string {
 	}
 	var ps []string
 	np := r.intn(6)
-	fieldNames := []string{"a", "ab", "b", "n", "r", "rs", "title", "id", "zz", "", "owner", "back"}
+	fieldNames := []string{"a", "ab", "b", "n", "r", "rs", "title", "id", "zz", "", "owner", "back", "A", "B"}
 	for i := 0; i < np; i++ {
 		switch r.intn(8) {
 		case 0, 1:
@@ -457,7 +458,7 @@ func randRawURL(r *rng, hostile bool) string {
 			ps = append(ps, "page["+pick(r, []string{"number", "size", "foo", ""})+"]="+url.QueryEscape(v))
 		case 5:
 			v := pick(r, []string{"label", "", "la bel", `{"f":"a","o":"=","v":"x"}`, `{"o":"and","v":[{"f":"a","o":"=","v":"x #y"},{"o":"or","v":[]}]}`,
-				`{"f":"ab","o":"<","v":5,"c":"x"}`, `{bad`, `{"o":"and","v":5}`, `a\nb`, `a\\b`, `{"f":"a","o":"=","v":null}`})
+				`{"f":"ab","o":"<","v":5,"c":"x"}`, `{"f":"a","o":"=","v":"a+b c"}`, `{"o":"or","v":[{"f":"a","o":"in","v":["1+1","100%&x=y;z?#/"]}]}`, "la+bel", `{bad`, `{"o":"and","v":5}`, `a\nb`, `a\\b`, `{"f":"a","o":"=","v":null}`})
 			if hostile {
 				v += pick(r, urlReserved)
 			}
